@@ -14,7 +14,10 @@ import (
 )
 
 var types = []uint8{db.DATATYPE_BIN, db.DATATYPE_MENU, db.DATATYPE_TEMPLATE, db.DATATYPE_STATICLOAD, db.DATATYPE_STATE, db.DATATYPE_USERDATA}
-var sessions = []string{"", "s1", "s2"}
+
+// session ids: none, and two of which one begins with the other (ids are
+// client numbers; a prefix of an id is an id)
+var sessions = []string{"s12", "s1", ""}
 var langs = []string{"", "eng", "nor"}
 
 const translatable = db.DATATYPE_MENU | db.DATATYPE_TEMPLATE | db.DATATYPE_STATICLOAD
